@@ -111,7 +111,8 @@ func VH_C13_scan_full() {
 //verif:bounds as VH_C13_scan_full; key of 0..3 columns (NULL or any int64, any rowid, a third column no record has)
 func VH_C13_scan_min() {
 	e, in := vhIndexSetup()
-	if len(e.ents) > 5 && verifTier() == 0 {
+	if len(e.ents) > 5+3*verifTier() {
+		// keyed scans: trees of <= 5 entries (thorough: <= 8)
 		verifReach("end")
 		return
 	}
@@ -138,7 +139,8 @@ func VH_C13_scan_min() {
 //verif:bounds as VH_C13_scan_min
 func VH_C13_scan_eq() {
 	e, in := vhIndexSetup()
-	if len(e.ents) > 5 && verifTier() == 0 {
+	if len(e.ents) > 5+3*verifTier() {
+		// keyed scans: trees of <= 5 entries (thorough: <= 8)
 		verifReach("end")
 		return
 	}
